@@ -8,7 +8,7 @@ octets}.  Deviations (D-choices, bound d):
         {0 = compute, actual, actual+1, +2, +5, actual-1}; the encoder is run recomputing
         (declared lengths ignored) and honouring them.
   dec   surplus octets inside sections 1,2,4 (0..3) and 3 (0..1) of reference-built messages
-        x trailing bytes {none, NUL, 7777, BUFR, a second message}.
+        x trailing bytes {none, NUL, 7777, BUFR, a second message} x leading bytes {none, LF, a GTS heading, 'BUF', '7777...'}.
   short a declared section length shorter than the section's content (decoder must refuse).
 Oracle: mc.ref.message (layout hard-coded from FM-94).
 """
@@ -185,6 +185,8 @@ def enc_body(struct):
 
 # ------------------------------------------------------------------------------------------
 TRAIL = [b'', b'\0', b'7777', b'BUFR', 'second']
+# bytes in front of the start signature (Decoder.process locates it): the reported span still runs from BUFR to 7777
+LEAD = [b'', b'\n', b'\r\r\n001\r\r\nISMD01 OKPR 010000\r\r\n', b'BUF', b'7777\0\0\0']
 
 
 def dec_body(struct):
@@ -200,9 +202,10 @@ def dec_body(struct):
         trail = TRAIL[ctx.pick('trail', len(TRAIL), 'S')]
         if trail == 'second':
             trail = second
+        lead = LEAD[ctx.pick('lead', len(LEAD), 'D')]
         b, info = message.build(spec, buf, surplus=surplus)
-        st = S.impl_decode(decoder(), b + trail, wire_template_data=False)
-        res = {'outcome': ('dec', struct[1], struct[2] is not None, tuple(sorted(surplus.items())), len(trail))}
+        st = S.impl_decode(decoder(), lead + b + trail, wire_template_data=False)
+        res = {'outcome': ('dec', struct[1], struct[2] is not None, tuple(sorted(surplus.items())), len(trail), len(lead))}
         if st[0] == 'exc':
             res['viol'] = ('decode-raises:' + st[1], 'decoding raised %s: %s (surplus %r)' % (st[1], st[2][:160], surplus))
             return res
@@ -212,8 +215,8 @@ def dec_body(struct):
             return res
         msg = st[2]
         if msg.serialized_bytes != b:
-            res['viol'] = ('span', 'serialized_bytes has %d bytes, the message %d (trailing %d bytes)'
-                           % (len(msg.serialized_bytes), len(b), len(trail)))
+            res['viol'] = ('span', 'serialized_bytes has %d bytes, the message %d (%d leading, %d trailing bytes)'
+                           % (len(msg.serialized_bytes), len(b), len(lead), len(trail)))
             return res
         if msg.length.value != len(b):
             res['viol'] = ('length-value', 'length parameter %r' % msg.length.value)
